@@ -29,6 +29,10 @@ def zbyte(cell):
     return z3.BitVecVal(cell.v, 8) if cell.conc() else sym.zexpr(cell.v)
 
 
+# verdict queries (the unsat ones a 'holds' rests on) sampled for re-decision by cvc5 (thorough tier)
+XSMT = {'every': 0, 'out': []}
+
+
 class Leaf:
     def __init__(self, E, I, prop):
         self.E = E; self.I = I; self.prop = prop
@@ -63,6 +67,8 @@ class Leaf:
             s.add(z3.Or([q[2] for q in self.zq]))
             E.nz3 += 1
             r = s.check()
+            if r == z3.unsat and XSMT['every'] and (hash(tuple(E.decisions)) % XSMT['every'] == 0) and len(XSMT['out']) < 150:
+                XSMT['out'].append(s.to_smt2())
             if r == z3.sat:
                 m = s.model()
                 for prop, msg, zv in self.zq:
